@@ -11,6 +11,7 @@ structure Pkt where
   uid : Nat
   ch : Nat                 -- 0 video, 1 video control, 2 audio, 3 audio control
   payload : List UInt8
+  ts : Nat := 0            -- RTP timestamp (all packets of one access unit carry the same one)
   deriving DecidableEq, Repr
 
 structure NalConsts where
@@ -110,6 +111,10 @@ structure Cache where
   sps : Option Pkt := none
   pps : Option Pkt := none
   gop : List Pkt := []
+  /-- `some ts`: the previous video slice packet was a key-frame slice with RTP timestamp `ts`
+      (keyRun / keyTimestamp of the Go caches): a further key slice with the same timestamp
+      continues that key frame instead of starting a new one -/
+  keyRun : Option Nat := none
   deriving DecidableEq, Repr
 
 def Cache.classify (k : NalConsts) (c : Cache) (pl : List UInt8) : Option Flags :=
@@ -125,16 +130,21 @@ def Cache.pack (k : NalConsts) (c : Cache) (p : Pkt) : Option (Cache × Bool) :=
       if c.hevc && f.vps then some ({ c with vps := some p }, false)
       else if f.sps then some ({ c with sps := some p }, false)
       else if f.pps then some ({ c with pps := some p }, false)
-      else if c.cacheGop then
-        if f.key then some ({ c with gop := [p] }, f.key)
-        else if c.gop.length > 0 then some ({ c with gop := c.gop ++ [p] }, f.key)
-        else some (c, f.key)
-      else some (c, f.key)
+      else
+        -- a key slice that continues the key frame of the previous video packet (same RTP timestamp)
+        -- is an ordinary packet of the GOP: it neither restarts the cache nor counts as a key-frame start
+        let key := f.key && c.keyRun != some p.ts
+        let c := { c with keyRun := if f.key then some p.ts else none }
+        if c.cacheGop then
+          if key then some ({ c with gop := [p] }, key)
+          else if c.gop.length > 0 then some ({ c with gop := c.gop ++ [p] }, key)
+          else some (c, key)
+        else some (c, key)
 
 /-- PushTo: what a joining consumer's queue is prefilled with -/
 def Cache.pushTo (c : Cache) : List Pkt :=
   (if c.hevc then c.vps.toList else []) ++ c.sps.toList ++ c.pps.toList ++ (if c.cacheGop then c.gop else [])
 
-def Cache.reset (c : Cache) : Cache := { c with vps := none, sps := none, pps := none, gop := [] }
+def Cache.reset (c : Cache) : Cache := { c with vps := none, sps := none, pps := none, gop := [], keyRun := none }
 
 end IpcHub.Media
